@@ -455,7 +455,8 @@ Inductive event :=
   | ERemove (name id : str)      (* another client deletes a message *)
   | EPurge (name : str)          (* another client empties a mailbox *)
   | EWriteBreak                  (* from now on every write to the client fails *)
-  | EEof.                        (* the client's side of the connection is gone *)
+  | EEof                         (* the client's side of the connection is gone *)
+  | EReadErr.                    (* reading fails otherwise (idle timeout, reset): "-ERR", end *)
 
 Record world := {
   w_store : store;
@@ -497,6 +498,11 @@ Definition wstep (fl : flavour) (w : world) (e : event) : world :=
   | EEof =>
       {| w_store := w_store w; w_sess := set_state (w_sess w) Closed; w_wfail := w_wfail w;
          w_out := w_out w |}
+  | EReadErr =>
+      if is_open w then
+        {| w_store := w_store w; w_sess := set_state (w_sess w) Closed; w_wfail := w_wfail w;
+           w_out := if w_wfail w then w_out w else w_out w ++ [r_minus] |}
+      else w
   end.
 
 Definition run (fl : flavour) (w : world) (evs : list event) : world :=
@@ -815,6 +821,18 @@ Fixpoint oracle_run (fl : flavour) (st : store) (sp : spec_state) (wfail : bool)
       | ELine l => on_cmd (parse_line l)
       | EWriteBreak => oracle_run fl st sp true evs' rs
       | EEof => oracle_run fl st (spec_close sp) wfail evs' rs
+      | EReadErr =>
+          match sp_phase sp with
+          | Closed => oracle_run fl st sp wfail evs' rs
+          | _ =>
+              if wfail then oracle_run fl st (spec_close sp) wfail evs' rs
+              else match rs with
+                   | [] => (Some R_COUNT, st, [])
+                   | r :: rs' =>
+                       if is_err r then oracle_run fl st (spec_close sp) wfail evs' rs'
+                       else (Some R_STATUS, st, rs')
+                   end
+          end
       | _ => oracle_run fl (ext_step st e) sp wfail evs' rs
       end
   end.
